@@ -137,4 +137,61 @@ theorem inRange_mono (np : NpInfo) (d t : Nat) (h : rangeSub np d t = true) (v :
   · have := two_pow_mono h
     omega
 
+/-! ### unfolding `eval` one node at a time -/
+
+theorem eval_bin (np : NpInfo) (a b : Operand) (va vb : Int) (op : NodeOp) (l r : Tree) :
+    eval np a b va vb (.bin op l r) =
+      (match eval np a b va vb l, eval np a b va vb r with
+      | some (d, x), some (_, y) =>
+          (match op with
+           | .Add => some (d, wrap np d (x + y))
+           | .Sub => some (d, wrap np d (x - y))
+           | .Mul => some (d, wrap np d (x * y))
+           | .Div => if y = 0 then none else some (d, wrap np d (Int.tdiv x y))
+           | .And => some (d, b2i (x != 0 && y != 0))
+           | .Or => some (d, b2i (x != 0 || y != 0))
+           | .Xor => some (d, b2i ((x != 0) != (y != 0)))
+           | .Equal => some (boolDt, b2i (x == y))
+           | .Less => some (boolDt, b2i (decide (x < y)))
+           | _ => none)
+      | _, _ => none) := by
+  rfl
+
+theorem eval_un (np : NpInfo) (a b : Operand) (va vb : Int) (op : NodeOp) (t : Tree) :
+    eval np a b va vb (.un op t) =
+      (match eval np a b va vb t with
+      | some (d, v) =>
+          (match op with
+           | .Neg => some (d, wrap np d (-v))
+           | .Not => some (d, 1 - v)
+           | _ => none)
+      | none => none) := by
+  rfl
+
+theorem eval_cast (np : NpInfo) (a b : Operand) (va vb : Int) (to : Nat) (t : Tree) :
+    eval np a b va vb (.cast to t) =
+      (match eval np a b va vb t with
+      | some (_, v) =>
+          if to == boolDt then some (to, b2i (v != 0))
+          else if np.integer to then some (to, wrap np to v) else none
+      | none => none) := by
+  rfl
+
+theorem wrap_inRange (np : NpInfo) (t : Nat) (hb : 1 ≤ np.bits t) (v : Int) : inRange np t (wrap np t v) = true := by
+  unfold wrap inRange
+  by_cases hs : np.signed t = true
+  · simp only [hs, if_true, Bool.and_eq_true, decide_eq_true_eq]
+    rw [two_pow_pred hb]
+    have hp := two_pow_pos (np.bits t - 1)
+    have h1 := Int.emod_nonneg (v + 2 ^ (np.bits t - 1)) (show (2 * (2 : Int) ^ (np.bits t - 1)) ≠ 0 by omega)
+    have h2 := Int.emod_lt_of_pos (v + 2 ^ (np.bits t - 1)) (show 0 < (2 * (2 : Int) ^ (np.bits t - 1)) by omega)
+    omega
+  · simp only [hs, Bool.false_eq_true, if_false, Bool.and_eq_true, decide_eq_true_eq]
+    have hp := two_pow_pos (np.bits t)
+    exact ⟨Int.emod_nonneg _ (by omega), Int.emod_lt_of_pos _ hp⟩
+
+theorem b2i_ne_zero (c : Bool) : (b2i c != 0) = c := by cases c <;> rfl
+theorem one_sub_b2i_ne_zero (c : Bool) : (1 - b2i c != 0) = !c := by cases c <;> rfl
+
+
 end Dispatch
